@@ -59,6 +59,7 @@ func (f *fakeStream) RecvMsg(m interface{}) error {
 
 type streamScenario struct {
 	Name     string
+	FailOnce bool // the first creation attempt fails, the retry succeeds
 	CreateOK bool
 	Sends    int // 0, 1, or 3 (= send m1, send m2, CloseSend)
 	Recvs    int
@@ -78,6 +79,7 @@ func streamScenarios() []streamScenario {
 	}
 	add(true, 3, 1, false, "")
 	add(true, 3, 2, false, "")
+	out = append(out, streamScenario{Name: "create=fail-then-ok sends=3 recvs=1 cancel=false probe=", CreateOK: true, FailOnce: true, Sends: 3, Recvs: 1})
 	add(false, 1, 1, false, "")
 	add(false, 3, 2, false, "")
 	add(true, 1, 1, true, "")
@@ -102,6 +104,7 @@ type streamRun struct {
 	streamerCtxOK bool
 	firstMsg      string
 	createdAt     int // number of streamer successes
+	failures      int // number of failed creation attempts
 	ctx           context.Context
 	results       []string
 	viol          []vsched.Violation
@@ -132,7 +135,8 @@ func streamBody(sc streamScenario) func(s *vsched.Sched) *vsched.ExecOutcome {
 			} else if m, ok := g.reqMsg.(*reqMsg); ok && r.streamerCalls == 1 {
 				r.firstMsg = m.Key
 			}
-			if !sc.CreateOK {
+			if !sc.CreateOK || (sc.FailOnce && r.streamerCalls == 1) {
+				r.failures++
 				return nil, errCreate
 			}
 			r.createdAt++
@@ -150,7 +154,7 @@ func streamBody(sc streamScenario) func(s *vsched.Sched) *vsched.ExecOutcome {
 		if r.streamerCalls != 0 {
 			r.violate("C12.S2", "stream created before the first SendMsg", "streamer called by the interceptor itself")
 		}
-		outcomeExists := func() bool { return r.createdAt > 0 || (r.streamerCalls > 0 && !sc.CreateOK) }
+		outcomeExists := func() bool { return r.createdAt > 0 || r.failures > 0 }
 		var threads []*vsched.Thread
 		var names []string
 		spawn := func(name string, fn func()) {
@@ -174,7 +178,11 @@ func streamBody(sc streamScenario) func(s *vsched.Sched) *vsched.ExecOutcome {
 		for i := 0; i < sc.Recvs; i++ {
 			i := i
 			spawn(fmt.Sprintf("receiver%d", i), func() {
+				createdBefore := r.createdAt > 0
 				e := cs.RecvMsg(&otherMsg{Name: fmt.Sprintf("r%d", i)})
+				if createdBefore && (r.fs == nil || !contains(r.fs.log, fmt.Sprintf("RecvMsg:r%d", i))) {
+					r.violate("C12.S5", "RecvMsg on an already created stream did not reach the underlying stream", fmt.Sprintf("returned %v", e))
+				}
 				ok := outcomeExists() || ctx.Err() != nil
 				if !ok {
 					r.violate("C12.S3", "RecvMsg returned before the stream creation outcome exists", fmt.Sprintf("RecvMsg returned %v with no stream, no creation error and a live context", e))
@@ -239,8 +247,12 @@ func streamBody(sc streamScenario) func(s *vsched.Sched) *vsched.ExecOutcome {
 			}
 		}
 		// streamer call count
-		if sc.CreateOK && sc.Sends > 0 && r.streamerCalls != 1 && allDone(threads) {
-			r.violate("C12.S2", "streamer not called exactly once", fmt.Sprintf("calls=%d", r.streamerCalls))
+		wantCalls := 1
+		if sc.FailOnce {
+			wantCalls = 2
+		}
+		if sc.CreateOK && sc.Sends > 0 && r.streamerCalls != wantCalls && allDone(threads) {
+			r.violate("C12.S2", "streamer not called exactly once per needed creation", fmt.Sprintf("calls=%d want %d", r.streamerCalls, wantCalls))
 		}
 		if sc.Sends == 0 && r.streamerCalls != 0 {
 			r.violate("C12.S2", "stream created without any SendMsg", fmt.Sprintf("calls=%d", r.streamerCalls))
@@ -260,11 +272,17 @@ func streamBody(sc streamScenario) func(s *vsched.Sched) *vsched.ExecOutcome {
 			if sc.Sends == 3 {
 				want = []string{"SendMsg:m1", "SendMsg:m2", "CloseSend"}
 			}
+			if sc.FailOnce {
+				want = []string{"SendMsg:m2", "CloseSend"} // m1's SendMsg returned the creation error
+			}
 			if strings.Join(got, ",") != strings.Join(want, ",") {
 				r.violate("C12.S5", "sends do not reach the underlying stream unchanged and in order", fmt.Sprintf("got %v want %v", got, want))
 			}
-			if sendRes[0] != "<nil>" {
+			if !sc.FailOnce && sendRes[0] != "<nil>" {
 				r.violate("C12.S5", "SendMsg result altered", sendRes[0])
+			}
+			if sc.FailOnce && (sendRes[0] != errCreate.Error() || sendRes[1] != "<nil>") {
+				r.violate("C12.S5", "SendMsg results altered (failed first creation, successful retry)", fmt.Sprint(sendRes))
 			}
 		}
 		if !sc.CreateOK && sc.Sends > 0 && allDone(threads) && sendRes[0] != errCreate.Error() {
